@@ -333,7 +333,11 @@ pub fn custom_layout_inputs(path: &str) -> Vec<Input> {
                 p => p,
             };
             let len = slot["len"].as_u64().unwrap() as usize;
-            let name = slot["name"].as_str().unwrap().to_string();
+            // the model's two names: "a" stays, "b" becomes an unknown name that contains the DWARF prefix in the middle
+            let name = match slot["name"].as_str().unwrap() {
+                "b" => "reloc..debug_info".to_string(),
+                n => n.to_string(),
+            };
             descr.push_str(&format!("{}@{}/{} ", name, pos, len));
             d.customs.push(gen::CustomD { after, name, data: (0..len).map(|x| (x as u8).wrapping_mul(37).wrapping_add(q as u8 + pos)).collect() });
         }
@@ -360,6 +364,7 @@ pub fn resolve_inputs(spec: &str, seed: u64) -> Vec<Input> {
             "ops" => out.extend(operator_inputs()),
             "manyimp" => out.extend(many_import_inputs()),
             "offsets" => out.extend(offset_inputs()),
+            "dwarfed" => out.extend(dwarfed_inputs(seed, f[1].parse().unwrap())),
             "exectab" => out.extend(exec_table_inputs(seed, f[1].parse().unwrap())),
             "dupimp" => out.extend(duplicate_import_inputs(seed, f[1].parse().unwrap())),
             "par" => out.extend(parallel_inputs(seed, f[1].parse().unwrap())),
@@ -918,8 +923,13 @@ pub fn config_case(inp: &Input, dwarf_ok: bool) -> Value {
     let mut runs = vec![];
     // all 2^6 vectors of names / producers / dwarf / xform / stable / synthetic-names with strict validation on, and a
     // few of them again with strict validation off
-    let vectors: Vec<(u32, bool)> = (0..64u32).map(|b| (b, true)).chain([0u32, 3, 21, 35, 42, 63].into_iter().map(|b| (b, false))).collect();
-    for (bits, strict) in vectors {
+    // (bits, strict, late): `late` = preserve_code_transform is set *after* generate_dwarf, so that DWARF generation is
+    // on while the code transform is not preserved (the setters are order sensitive)
+    let vectors: Vec<(u32, bool, bool)> = (0..64u32).map(|b| (b, true, false))
+        .chain([0u32, 3, 21, 35, 42, 63].into_iter().map(|b| (b, false, false)))
+        .chain((0..64u32).filter(|b| b & 4 != 0 && b & 8 == 0 && b & 48 == 0).map(|b| (b, true, true)))
+        .collect();
+    for (bits, strict, late) in vectors {
         let cfg = Cfg { names: bits & 1 != 0, producers: bits & 2 != 0, dwarf: bits & 4 != 0, xform: bits & 8 != 0, stable: bits & 16 != 0, synth: bits & 32 != 0, probe: false };
         if cfg.dwarf && !dwarf_ok {
             continue;
@@ -927,12 +937,16 @@ pub fn config_case(inp: &Input, dwarf_ok: bool) -> Value {
         let calls = Arc::new(AtomicU32::new(0));
         let c2 = calls.clone();
         let mut config = cfg.to_config();
+        if late {
+            config.generate_dwarf(cfg.dwarf);
+            config.preserve_code_transform(cfg.xform);
+        }
         config.strict_validate(strict);
         config.on_parse(move |_, _| {
             c2.fetch_add(1, Ordering::SeqCst);
             Ok(())
         });
-        let flags = json!({"names": cfg.names, "producers": cfg.producers, "dwarf": cfg.dwarf, "xform": cfg.xform, "stable": cfg.stable, "synth": cfg.synth, "strict": strict});
+        let flags = json!({"names": cfg.names, "producers": cfg.producers, "dwarf": cfg.dwarf, "xform": cfg.xform, "stable": cfg.stable, "synth": cfg.synth, "strict": strict, "late": late});
         let r = std::panic::catch_unwind(std::panic::AssertUnwindSafe(|| config.parse(&inp.bytes)));
         let run = match r {
             Ok(Ok(mut m)) => match run::emit(&mut m, false) {
@@ -1194,6 +1208,28 @@ pub fn offset_inputs() -> Vec<Input> {
         }
     }
     out.retain(|i| absmod::validate(&i.bytes).is_ok());
+    out
+}
+
+/// modules that carry DWARF (C14): small generated modules with synthesized line tables and subprograms, and modules
+/// without any code that carry a minimal compile unit
+pub fn dwarfed_inputs(seed: u64, n: u64) -> Vec<Input> {
+    let mut out = vec![];
+    let o = profile_opts("small");
+    for k in 0..n {
+        let (g, _) = gen::gen_valid(seed.wrapping_mul(31).wrapping_add(k), &o);
+        let version = if k % 2 == 0 { 4 } else { 5 };
+        if let Some(b) = crate::dwarf::attach(&g.bytes, crate::dwarf::DwarfOpts { version, spanning: false }) {
+            out.push(Input { id: format!("dwarfed-{}", k), bytes: b, source: format!("dwarf:gen:{}:{}:v{}", seed, k, version) });
+        }
+    }
+    // no code section at all
+    for (k, wat) in ["(module (memory 1) (data (i32.const 0) \"abc\"))", "(module (import \"env\" \"f\" (func)) (export \"g\" (func 0)))", "(module (table 2 funcref) (global (export \"x\") i32 (i32.const 7)))"].iter().enumerate() {
+        let bytes = wat::parse_str(wat).unwrap();
+        for version in [4u16, 5] {
+            out.push(Input { id: format!("dwarfed-nocode-{}-v{}", k, version), bytes: crate::dwarf::attach_minimal(&bytes, version), source: format!("dwarf:nocode:{}:v{}", k, version) });
+        }
+    }
     out
 }
 
